@@ -17,6 +17,7 @@ Directive grammar (each on its own line, leading whitespace allowed):
   //@ exit                  ... immediately before the body's closing brace (functions returning `()`)
   //@ loop-end N            ... immediately before the closing brace of the N-th loop's body
   //@ loop-after N          ... immediately after the N-th loop (a statement position)
+  //@ for-next N into=F next=G [iter=NAME]   rule R18: the N-th loop, a `for`, is written as `loop { match G(&mut it) {..} }`
   //@ region-start "TEXT" / region-end "TEXT" / region-as HEADER / region-prologue TEXT / region-epilogue TEXT
                             rule R16: the block statement of the fn that starts at TEXT becomes the body of a
                             synthetic function with the declared header (nested fn items are cut; select them with
@@ -533,6 +534,32 @@ def rule_r17(text, rules):
         text = text[:st[i + 1].start] + var + " " + text[st[j].start:st[b].end] + (" let %s = %s;" % (pat, var)) + text[st[b].end:]
         rules.append("R17")
 
+def rule_r18(text, rules, specs):
+    """for PAT in E { B }  ->  { let mut IT = INTO(E); loop { match NEXT(&mut IT) { None => { break; } Some(PAT) => { B } } } }
+    - the definition of `for` in the Rust reference - for iterators that have no Verus specification (wasmparser's section
+    readers). INTO / NEXT are wrappers declared in the unit around IntoIterator::into_iter / Iterator::next.
+    specs: list of (N, into_fn, next_fn, iter_name); N counts for/while/loop keywords of the fn body in textual order."""
+    for (n, into_fn, next_fn, itname) in sorted(specs, key=lambda x: -x[0]):
+        st, bo, arrow, wh = _fn_parts(text)
+        loops = _loop_headers(text, st, bo)
+        if n < 1 or n > len(loops): raise ExtractError("anchor lost: for-next loop %d (has %d)" % (n, len(loops)))
+        kwi, lbo = loops[n - 1]
+        if st[kwi].text != "for": raise ExtractError("for-next: loop %d is not a `for`" % n)
+        j = kwi + 1
+        while True:
+            y = st[j]
+            if y.kind == "punct" and y.text in OPEN: j = match_close(st, j) + 1; continue
+            if y.kind == "ident" and y.text == "in": break
+            j += 1
+        pat = text[st[kwi + 1].start:st[j - 1].end]
+        E = text[st[j + 1].start:st[lbo - 1].end]
+        lbc = match_close(st, lbo)
+        body = text[st[lbo].start:st[lbc].end]
+        new = "{ let mut %s = %s(%s); loop { match %s(&mut %s) { None => { break; } Some(%s) => %s } } }" % (itname, into_fn, E, next_fn, itname, pat, body)
+        text = text[:st[kwi].start] + new + text[st[lbc].end:]
+        rules.append("R18")
+    return text
+
 def rule_r3(text, rules, only_guarded=False):
     """split or-pattern arms of every `match` whose arms have top-level `|` alternatives
     (only_guarded: only arms that also carry an `if` guard - Verus rejects or-pattern + guard outright)"""
@@ -806,6 +833,8 @@ def extract_item(path, selector, opts, directives, findings_open):
         text = rule_r14(text, rules)
         text = rule_r4(text, rules)
         text = rule_r17(text, rules)
+        if directives.get("fornext") and it.kind == "fn":
+            text = rule_r18(text, rules, directives["fornext"])
         if "r3" in opts:
             text = rule_r3(text, rules)
         else:
@@ -1095,6 +1124,9 @@ def generate(spec_path, open_findings=(), auto_helpers=()):
                         elif d2.startswith("derive "): directives.setdefault("derive", []).append(d2[7:].strip())
                         elif d2.startswith("attr "): directives.setdefault("attr", []).append(d2[5:].strip())
                         elif d2 in ("sig", "entry", "tail", "exit"): cur = (d2,)
+                        elif d2.startswith("for-next "):
+                            ws = d2.split(); kv = dict(w.split("=", 1) for w in ws[2:])
+                            directives.setdefault("fornext", []).append((int(ws[1]), kv["into"], kv["next"], kv.get("iter", "__it%s" % ws[1])))
                         elif d2.startswith("loop-end ") or d2.startswith("loop-after "):
                             cur = (d2.split()[0], int(d2.split()[1]))
                         elif d2.startswith("loop "):
